@@ -1,3 +1,3 @@
 import NiVerif.DriverCore
-import NiVerif.Model.Vector
-def main : IO Unit := Driver.runS Model.Vector.step (⟨.int, [], ""⟩ : Model.Vector.V)
+import NiVerif.Model.VectorArgs
+def main : IO Unit := Driver.runS Model.Vector.stepArgs (⟨.int, [], ""⟩ : Model.Vector.V)
